@@ -989,6 +989,88 @@ example :
 -- describe what the driver answers for such metadata (the case-line parsers refuse it).
 example : uniqById [⟨1, some 0, some 0⟩, ⟨1, some 0, some 1⟩] ≠ uniq [⟨1, some 0, some 0⟩, ⟨1, some 0, some 1⟩] := by decide
 
+/-! #### the `!tablet_based` filter of `calculate_new_locator` (a declared model / code mismatch)
+
+`calculate_new_locator` (`cluster/state.rs:414-418`) precomputes replica lists for `keyspaces.values().filter(|ks|
+!ks.tablet_based).map(|ks| &ks.strategy)`; `tablet_based` comes from `initial_tablets` in the replication options
+(`fetching.rs:1749-1770`).  The model's `Keyspaces` has no such flag and `Refresh.strategiesOf` precomputes for EVERY
+keyspace.  So for a state with a tablet-based keyspace the model's `Locator.pre` may hold lists the code's does not.
+The mismatch is made explicit here: `strategiesOfCode` is the code's function on keyspaces that carry the flag;
+the two coincide without tablet keyspaces (`strategiesOf_eq_code_of_no_tablet_keyspace`, hence the `_vnode`
+corollaries, where the refresh theorems hold for the code's locator as a structure); WITH tablet keyspaces the
+`Locator` values differ in `pre` only, and no observation depends on `pre` (`precompute_set_irrelevant`, from
+`precomputed_eq_onthefly`, proved for every pair of strategy sets): the mismatch is harmless for every token-ring
+answer.  (What a tablet-based keyspace's TABLES answer is the tablet path, C15; a strategy queried on the token ring
+is answered as below whether or not some keyspace is tablet-based.) -/
+
+/-- `ClusterState::keyspaces` with the flag the code reads: name → (strategy, `tablet_based`). -/
+abbrev KeyspacesT := List (Nat × Strategy × Bool)
+
+/-- What the model keeps of them. -/
+def forgetTablets (ks : KeyspacesT) : Keyspaces := ks.map (fun k => (k.1, k.2.1))
+
+/-- The strategies `calculate_new_locator` hands to `ReplicaLocator::new`: `.filter(|ks| !ks.tablet_based)`. -/
+def strategiesOfCode (ks : KeyspacesT) : List Strategy := (ks.filter (fun k => !k.2.2)).map (·.2.1)
+
+/-- No keyspace is tablet-based (a vnode-only cluster). -/
+def NoTabletKeyspace (ks : KeyspacesT) : Prop := ∀ k ∈ ks, k.2.2 = false
+
+/-- Without tablet-based keyspaces the model's precomputation set IS the code's. -/
+theorem strategiesOf_eq_code_of_no_tablet_keyspace (ks : KeyspacesT) (h : NoTabletKeyspace ks) :
+    strategiesOfCode ks = strategiesOf (forgetTablets ks) := by
+  unfold strategiesOfCode strategiesOf forgetTablets
+  rw [List.filter_eq_self.mpr (fun k hk => by simp [h k hk]), List.map_map]
+  rfl
+
+/-- In general the code's set is a sublist of the model's (tablet keyspaces dropped). -/
+theorem strategiesOfCode_sublist (ks : KeyspacesT) : (strategiesOfCode ks).Sublist (strategiesOf (forgetTablets ks)) := by
+  unfold strategiesOfCode strategiesOf forgetTablets
+  rw [List.map_map]
+  exact (List.filter_sublist (l := ks)).map _
+
+/-- **The precomputation set is irrelevant to every observation**, tablet keyspaces or not: for the ring of ANY
+entries, the locator built with the code's filtered set and the one built with the model's unfiltered set give the
+same size, iteration, choice at every index and ring-ordered view for every strategy, restriction and token.  The
+refresh theorems (`refresh_locator_eq_fresh`, `refresh_depends_on_last_metadata_only`, `address_irrelevant`) equate
+`Locator` STRUCTURES built with `strategiesOf`; through this theorem their observable content holds for the code's
+locator with no hypothesis on `tablet_based`. -/
+theorem precompute_set_irrelevant (entries : List (Int × Node)) (ks : KeyspacesT) (tok : Int) (strat : Strategy)
+    (dc : Option Nat) :
+    let code := mkLocator entries (strategiesOfCode ks)
+    let model := mkLocator entries (strategiesOf (forgetTablets ks))
+    let rs := replicasForToken code tok strat dc
+    let rs' := replicasForToken model tok strat dc
+    rs.len code = rs'.len model ∧ rs.iter code = rs'.iter model ∧ (∀ i, rs.choose code i = rs'.choose model i) ∧
+      rs.ordered code = rs'.ordered model :=
+  precomputed_eq_onthefly (mkRing_sorted entries) (strategiesOfCode ks) (strategiesOf (forgetTablets ks)) tok strat dc
+
+/-- `refresh_locator_eq_fresh` for the code's locator as a structure, hypothesis visible: in a cluster without
+tablet-based keyspaces the locator `calculate_new_locator` builds from the peers and keyspaces in force after any
+history is the one the model's history reaches. -/
+theorem refresh_locator_eq_fresh_vnode (peers₀ : List MPeer) (ks₀ : Keyspaces) (steps : List Step) (ksT : KeyspacesT)
+    (hks : forgetTablets ksT = (metaAfter (peers₀, ks₀) steps).2) (hno : NoTabletKeyspace ksT) :
+    ((CState.fresh peers₀ (fetchedOk ks₀)).run steps).loc =
+      mkLocator (toTopology (metaAfter (peers₀, ks₀) steps).1).entries (strategiesOfCode ksT) := by
+  rw [refresh_locator_eq_fresh, strategiesOf_eq_code_of_no_tablet_keyspace ksT hno, hks]
+  simp only [CState.fresh, newTopology_entries, resolve_fetchedOk]
+
+/-- `refresh_depends_on_last_metadata_only` likewise. -/
+theorem refresh_depends_on_last_metadata_only_vnode (st : CState) (peers : List MPeer) (ksT : KeyspacesT)
+    (hno : NoTabletKeyspace ksT) :
+    (st.refresh peers (fetchedOk (forgetTablets ksT))).loc = mkLocator (toTopology peers).entries (strategiesOfCode ksT) := by
+  rw [strategiesOf_eq_code_of_no_tablet_keyspace ksT hno]
+  simp only [CState.refresh, newTopology_entries, resolve_fetchedOk]
+
+-- non-vacuity: k1 is tablet-based; the code precomputes for k0 and k2 only, the model for all three
+example : strategiesOfCode [(0, .simple 2, false), (1, .nts [(0, 3)], true), (2, .simple 3, false)] = [.simple 2, .simple 3] ∧
+    strategiesOf (forgetTablets [(0, .simple 2, false), (1, .nts [(0, 3)], true), (2, .simple 3, false)]) =
+      [.simple 2, .nts [(0, 3)], .simple 3] ∧
+    NoTabletKeyspace [(0, .simple 2, false), (2, .simple 3, false)] := by
+  refine ⟨by decide, by decide, ?_⟩
+  intro k hk
+  simp only [List.mem_cons, List.mem_nil_iff, or_false] at hk
+  rcases hk with rfl | rfl <;> rfl
+
 end refresh
 
 /-! ### metadata rows → peers → ring, replication options → strategy
